@@ -18,7 +18,10 @@ def scenarios(quick, seed):
         churn = [300, 900, 0, 300][(j // 4) % 4] if pol == "free" else (150 if j % 16 == 1 else [0, 40][j % 2])
         out.append({"clients": 2 + j % 3, "ops": (30 + 10 * (j % 4)) if pol == "free" else 8 + j % 5, "keys": 2 + j % 6, "collide": (j // 2) % 2,
                     "churn": churn, "initsize": [0, 1, 200, 5000][(j // 3) % 4], "rangers": (j // 2) % 2, "policy": pol, "resizes": (2 if j % 8 < 4 else 0) if pol == "free" else (1 + j % 3 if j % 8 < 4 else [0, 1, 2, 1][j % 4]),
-                    "clears": [0, 0, 1, 2][(j // 4) % 4], "seed": seed * 100000 + j})
+                    "clears": [0, 0, 1, 2][(j // 4) % 4], "hollow": 0, "seed": seed * 100000 + j})
+        if (j // 3) % 5 == 2:
+            # a chain longer than its root bucket whose root bucket is emptied before the table is rebuilt
+            out[-1].update(hollow=1, collide=1, keys=6 + j % 3)
     return out
 
 
